@@ -317,7 +317,25 @@ fn replay_wire(ctx: &mut Ctx, v: &Value, which: Which) {
     }
 }
 
+/// vacuity-guard bookkeeping from generator + specification only
+fn spec_guards(ctx: &mut Ctx, entry: Entry, opts: Option<u8>, bytes: &[u8]) {
+    match entry {
+        Entry::Message => {
+            let d = spec::decode(bytes, eff_opts(opts));
+            spec_guards_message(ctx, bytes, &d);
+        }
+        Entry::AvpList => {
+            let (items, _) = spec::decode_avps(bytes);
+            spec_guards_avps(ctx, bytes, &items);
+        }
+        Entry::Type(_) => (),
+    }
+}
+
 fn check_one(ctx: &mut Ctx, which: Which, family: &'static str, entry: Entry, opts: Option<u8>, bytes: &[u8]) {
+    if which != Which::C05 {
+        spec_guards(ctx, entry, opts, bytes);
+    }
     match which {
         Which::C01 => c01(ctx, family, entry, opts, bytes),
         Which::C02 => c02(ctx, family, entry, opts, bytes),
